@@ -11,7 +11,8 @@
    Frame.encode (rr_first) 0x8003 .. (rr_body), whose decoding is C01's theorem. *)
 From JT.Base Require Import Prelude.
 From JT.Model Require Import Frame Unpack Subpkg.
-From JT.Proofs Require Import Subpkg_proofs Rereq_proofs Subpkg_final.
+From JT.Model Require Reply.
+From JT.Proofs Require Import Frame_proofs Subpkg_proofs Rereq_proofs Subpkg_final Rereq_wire.
 
 (* the end of a read at time now (within 60 s of packet 1) while packets are missing: no re-request
    for X if the last stored packet / re-request is 5 s old or less; otherwise exactly one,
@@ -109,6 +110,37 @@ Theorem C14_expiry_state : forall X s x now, wf s -> find X s = Some x -> x_crea
 Proof. exact expiry_state. Qed.
 Print Assumptions C14_expiry_state.
 
+(* the FRAME written for a re-request.  supplementarySubPackage hands the reader loop the message
+   rereq_pmsg (mk_rereq id x) (encoded with the first packet's header, decoded again); the reader
+   routes it to reissuePackChan; the writer (Model/Reply.v writer_rereq = connection.subPackReplyEvent)
+   takes it from the channel, stamps the current platform serial and encodes it.  For EVERY transfer
+   state x (first packet's header a decoded header - C01_decoded_headers_exist -, at most 510 slots so
+   that the body fits a frame) and EVERY writer state c with that message at the head of the channel:
+   the writer emits exactly one write, advances the platform serial and the channel, and the bytes
+   written decode (Frame.decode, C01) to an unfragmented 0x8003 addressed with the terminal's BCD
+   phone, protocol version and encryption bit, carrying the platform serial of that moment and the
+   body <first packet's serial> <count> <missing numbers ascending> (C14_body_layout, C14_exact_list) *)
+Theorem C14_rerequest_frame : forall id x (c : Reply.conn) d rq,
+  decoded_header (x_first x) -> (length (x_slots x) <= 510)%nat -> Reply.c_seq c < 65536 ->
+  Reply.c_rq c = d :: rq -> Reply.d_m d = p_msg (rereq_pmsg (mk_rereq id x)) ->
+  exists w cb chk,
+    Reply.writer_rereq c = (fst (Reply.writer_rereq c), Reply.OWrite w :: cb) /\
+    Reply.c_seq (fst (Reply.writer_rereq c)) = Reply.next_seq (Reply.c_seq c) /\
+    Reply.c_rq (fst (Reply.writer_rereq c)) = rq /\
+    let body := body_8003 (m_serial (x_first x)) (len (missing (x_slots x) 1)) (missing (x_slots x) 1) in
+    decode (Reply.wire_bytes w) =
+      Ok {| m_id := 32771; m_len := len body; m_enc := m_enc (x_first x); m_frag := 0; m_ver := m_ver (x_first x);
+            m_bcd := m_bcd (x_first x); m_serial := Reply.c_seq c; m_sum := 0; m_no := 0; m_body := body;
+            m_check := chk |}.
+Proof. exact rerequest_frame. Qed.
+Print Assumptions C14_rerequest_frame.
+
+(* the serial hypothesis holds in every history of the connection (and C06_serials says which
+   serial the k-th write carries) *)
+Theorem C14_writer_serial_range : forall ms s, Reply.c_seq (Reply.final (Reply.init ms) s) < 65536.
+Proof. exact writer_seq_range. Qed.
+Print Assumptions C14_writer_serial_range.
+
 (* ---- non-vacuity and the limit of the property's quantifier ---- *)
 Definition ex_pkt (id sum no serial : N) (body : list N) : msg :=
   {| m_id := id; m_len := len body; m_enc := 0; m_frag := (if sum =? 0 then 0 else 1); m_ver := 0;
@@ -147,3 +179,12 @@ Example C14_count_wraps :
   map (fun r => (len (rr_list r), nth 2 (rr_body r) 99, len (rr_body r))) (rr_for 2049 (snd (step 5001 s EvEnd)))
   = [(256, 0, 515)].
 Proof. vm_compute. reflexivity. Qed.
+
+(* the hypotheses of C14_rerequest_frame are satisfiable: the transfer of ex14 after packets 1 and 4 *)
+Example C14_example_frame :
+  let x := {| x_slots := [[1]; []; []; [4]; []]; x_create := 0; x_update := 100; x_first := ex_pkt 2049 5 1 4660 [1] |} in
+  decoded_header (x_first x) /\
+  decode (encode (p_msg (rereq_pmsg (mk_rereq 2049 x))) 32771 7 (m_body (p_msg (rereq_pmsg (mk_rereq 2049 x))))) =
+    Ok {| m_id := 32771; m_len := 9; m_enc := 0; m_frag := 0; m_ver := 0; m_bcd := [1; 35; 69; 103; 137; 1];
+          m_serial := 7; m_sum := 0; m_no := 0; m_body := [18; 52; 3; 0; 2; 0; 3; 0; 5]; m_check := 36 |}.
+Proof. split. unfold decoded_header, bytes; cbn; repeat split; try reflexivity; repeat constructor. vm_compute. reflexivity. Qed.
